@@ -22,7 +22,8 @@ HARNESSES = {
     "c16": [("w_c16", None)],
     "c08": [("w_c08", None)],
     "c19": [("w_c19", None)],
-    "c01": [("w_c01", None)],
+    "c01": [("w_c12", ["check_add_value_linear", "check_update_dict_linear", "check_update_list_linear", "check_ngram_linear"])],
+    "c05": [("w_c12", ["check_add_value_linear", "check_add_value_log16", "check_add_value_log8"])],
     "c17": [("w_c17", None)],
     "c06": [("w_c06", None)],
 }
